@@ -54,6 +54,7 @@ class Real:
         self.conflicts = [r for r in records if "conflict" in r.lower() or "collision" in r.lower()]
         self.prods = [(r.origin.name, tuple(s.name for s in r.expansion), tuple(s.is_term for s in r.expansion))
                       for r in L.rules]
+        self.node = [str(r.alias or r.origin.name) for r in L.rules]   # name of the tree node each production builds
         self.start = L.options.start[0]
         ignored = set(L.ignore_tokens)
         self.terms = [t.name for t in L.terminals if t.name not in ignored]
@@ -240,7 +241,8 @@ def real_grammar(real):
     on; the reference names them by the operator *token*.  A grammar that attaches `&&` to a conditionalor node
     therefore differs in its facts."""
     anchors = {}
-    for pidx, (A, syms, ist) in enumerate(real.prods):
+    for pidx, (_, syms, ist) in enumerate(real.prods):
+        A = real.node[pidx]
         if A == "expr" and len(syms) == 5:
             anchors[pidx] = [(1, "?:", "own"), (3, "?:else", "own")]
         elif A == "conditionalor" and len(syms) == 3:
@@ -344,26 +346,29 @@ def tree_facts(real, G, names, offs, tree):
     def walk(t):
         """-> (pidx or None, splits) of the production applied at node t"""
         i, j = span(t)
-        seq, pos = [], i
+        seq, pos, sub = [], i, []
         for c in t.children:
             p, q = span(c)
             seq += [(names[k], k, k + 1) for k in range(pos, p)]
-            seq.append((c.type if isinstance(c, lark.Token) else c.data, p, q))
+            if isinstance(c, lark.Token):
+                seq.append((c.type, p, q))
+            else:
+                cp, cspl = walk(c)
+                sub.append((cp, cspl))
+                seq.append((G.prods[cp][0] if cp is not None else c.data, p, q))   # an aliased node is named by its alias
             pos = q
         seq += [(names[k], k, k + 1) for k in range(pos, j)]
         syms, spl = tuple(s for s, _, _ in seq), [(p, q) for _, p, q in seq]
-        pidx = next((p for p in G.by_origin.get(t.data, ()) if G.prods[p][1] == syms), None)
+        pidx = next((p for p, nm in enumerate(real.node) if nm == t.data and G.prods[p][1] == syms), None)
         if pidx is None:
             unmatched.append(str(t.data))
         for idx, kind, where in G.anchors.get(pidx, ()):
             if where == "own":
                 facts.add((kind, spl[idx][0], i, j))
-        for c in t.children:
-            if isinstance(c, lark.Tree):
-                cp, cspl = walk(c)
-                for idx, kind, where in G.anchors.get(cp, ()):
-                    if where == "parent":
-                        facts.add((kind, cspl[idx][0], i, j))
+        for cp, cspl in sub:
+            for idx, kind, where in G.anchors.get(cp, ()):
+                if where == "parent":
+                    facts.add((kind, cspl[idx][0], i, j))
         return pidx, spl
     walk(tree)
     return facts, unmatched
